@@ -1,16 +1,15 @@
 (* C10, mate in two, with the table on (the engine's mode, tableless = false).
 
-   STATUS.  The statement of Proofs/MateTwo.v (C10_mate_in_two_tableless_partial) does NOT carry over:
-   section 2 exhibits a position with a forced mate in two - fresh table, no hash collision, no move history
-   (so no repetition filter) - on which the model with the table on, and the engine binary, announce a move
-   that is NOT a key (it forces mate in three) with the score 32665 of a mate in two and stop after
-   iteration 5 (table_on_refutes_mate_in_two).  The cause is a transposition between ply 2 and ply 4 inside
-   iteration 5: mate scores are relative to the ply, table entries are not.
-   What can still be expected with the table on (NOT proved here): iteration 5 ends with the score 32665, the
-   driver stops there, and the announced move forces mate (in two, or longer through such transpositions);
-   a proof needs the soundness of mate-range entries ("an entry with a score >= 32665 - k below a real
-   forced mate") through the PVS node with the table, for all plies at once.
-   Section 1 is a reusable part of any such proof: quiescence and depth 1 under ARBITRARY windows. *)
+   STATUS.  Before the repair "mate scores are stored in the table counted from the storing node
+   (score_to_table / score_from_table)" the statement of Proofs/MateTwo.v did not carry over: on the position
+   of section 2 - a forced mate in two, fresh table, no hash collision, no move history - the model with the
+   table on, and the engine binary, announced a move that is NOT a key (it forces mate in three) with the
+   score 32665 of a mate in two.  Cause: a transposition between ply 2 and ply 4 inside iteration 5; mate
+   scores are relative to the ply, the table entries were not.  Section 2 records the mechanism and the
+   behaviour of the repaired model on that position (the key is played).
+   Still open: the general theorem with the table on (iteration 5 ends with 32665, the driver stops there and
+   announces a key).  Section 1 is a reusable part of such a proof: quiescence and depth 1 under ARBITRARY
+   windows. *)
 From Coq Require Import Lia FSets.FMapPositive.
 From Chess Require Import Model.Search Model.RefSearch
   Proofs.Grid Proofs.Inv Proofs.Abs Proofs.GenOk Proofs.PushPop Proofs.PushPop2
@@ -106,33 +105,23 @@ Proof.
     + left. rewrite Epm. discriminate.
 Qed.
 
-(* ---- 2. FINDING: with the table on, a mate score can be two plies too short, and the key is missed -----------
+(* ---- 2. the defect that the recount of mate scores repairs, and the repaired behaviour -----------------------
 
    A node with remaining depth 1 at ply 4 probes the table like every node.  In iteration 5 the nodes at
-   ply 2 store entries of depth 3; a position in which the side to move mates at once (wins1_b) is stored
-   with the score 32665 = "mate delivered at ply 3".  When the same position is reached at ply 4 (the same
-   moves in another order, or a king walking a5-b6-a6 instead of a5-a6) the probe (1 <= 3, flag Exact)
-   returns 32665 although the mate is delivered at ply 5 there: mate scores are relative to the ply and
-   the entry does not record it.  The parent at ply 3 then looks mated at ply 3 and a root move that only
-   forces mate in THREE is scored 32665, the score of a mate in two.  The root keeps the first move that
-   reaches a score, 32665 is above the exit band, the driver announces that move and stops.
+   ply 2 store entries of depth 3; a position in which the side to move mates at once (wins1_b) scores 32665
+   there = "mate delivered at ply 3".  Before the repair that number went into the table as it was; when the
+   same position was reached at ply 4 (the same moves in another order, or a king walking a5-b6-a6 instead
+   of a5-a6) the probe (1 <= 3, flag Exact) returned 32665 although the mate is delivered at ply 5 there.
+   The parent at ply 3 then looked mated at ply 3 and a root move that only forces mate in THREE was scored
+   32665, the score of a mate in two; the root keeps the first move that reaches a score, 32665 is above the
+   exit band, and the driver announced that move.
 
-   Instance WITH a forced mate in two: 8/3R4/8/k2K4/8/8/8/2Q5 w - - 0 1.  The only key is Rd7-a7+ (rules'
-   solver: keep=d7a7).  After 1. Qc4 Kb6 (the only reply) White has no mate in one, but after 2. Qc5+
-   every reply leads to a position that is also reached at ply 2 (1. Qc5+ and the king move), stored with
-   32665.  Model, table on: iteration 5 scores 32665 with Qc1-c4, which is not a key; table-less mode:
-   Rd7-a7 (as C10_mate_in_two_tableless_partial says).  Engine binary, fresh table, "go depth 7":
-     info depth 5 / info score cp 32665 / info pv c1c4 a5b6 c4c5 b6a6 d7a7 / bestmove c1c4
-   (a principal variation of five plies under the score of a mate in two), and it mates on move 3, not 2.
-   Nine more such positions and nineteen positions without any mate in two where 32665 is announced (e.g.
-   8/3k4/1R4Q1/2K5/8/8/8/8 w: g6h7) came out of about 70 000 random positions with three or four white
-   pieces; they are listed in the final report of this work.
-
-   Consequences for C10: the announced move still forces mate (an entry carries a mate score only below a
-   real mate), so nothing is lost over the board; but "if the side to move can force mate in two a search
-   to depth 5 or more plays a move that keeps the forced mate in two" is FALSE for the engine with its
-   table on, for a fresh table, without any hash collision and without the repetition filter being
-   involved.  The conclusion of C10_mate_in_two_tableless_partial cannot be proved for tableless = false. *)
+   Instance: 8/3R4/8/k2K4/8/8/8/2Q5 w - - 0 1, only key Rd7-a7+.  After 1. Qc4 Kb6 (the only reply) White has
+   no mate in one, but after 2. Qc5+ every reply leads to a position that is also reached at ply 2 (1. Qc5+
+   and the king move).  Unrepaired model and engine binary: iteration 5 scores 32665 with Qc1-c4
+   ("info depth 5 / info score cp 32665 / info pv c1c4 a5b6 c4c5 b6a6 d7a7 / bestmove c1c4").
+   Repaired: the entry of the ply-2 position holds 32667 ("mate in one from here"), read at ply 4 it is
+   32663, Qc4 scores 32663 and the key Rd7-a7 is announced with 32665 (missed_key_repaired below). *)
 From Coq Require Import String.
 Open Scope string_scope.
 Open Scope Z_scope.
@@ -148,7 +137,7 @@ Proof.
   - unfold Bounded, BOUND. split; vm_compute; discriminate.
 Qed.
 
-(* the hashes stored with 32665 at ply 2: positions after two plies in which the mover mates at once *)
+(* the hashes stored with a mate score at ply 2: positions after two plies in which the mover mates at once *)
 Definition ply2_wins (g : game) : list N :=
   flat_map (fun a' => flat_map (fun b' => let c := push (push g a') b' in if wins1_b c then [g_hash c] else [])
                                (checked_moves (push g a'))) (checked_moves g).
@@ -162,6 +151,7 @@ Definition transposing_moves (g : game) (a b : Move) : list Move :=
                     | rs => forallb (fun r2 => existsb (N.eqb (g_hash (push (push c m2) r2))) hs) rs
                     end) (checked_moves c).
 
+(* the transposition (independent of the repair) *)
 Example missed_key_mechanism :
   let Kb6 := Normal (mkPiece King Black) (4, 0) (5, 1) None in
   key2 MISSED_KEY Rd7a7 /\                                              (* a mate in two exists *)
@@ -175,29 +165,24 @@ Proof.
   vm_compute. repeat split; try reflexivity; repeat (try (left; reflexivity); right).
 Qed.
 
-Example missed_key_run :
-  d_move (driver MISSED_KEY tempty (Some 7) (-1) false) = Some Qc1c4 /\
+(* the repaired model, table on, fresh table, limit 7: the key, 32665 at iteration 5, nothing deeper *)
+Example missed_key_repaired :
+  d_move (driver MISSED_KEY tempty (Some 7) (-1) false) = Some Rd7a7 /\
   map it_depth (driver_iterations MISSED_KEY tempty (Some 7) (-1) false) = [1; 2; 3; 4; 5] /\
   (exists e1 e2 e3 e4,
      map it_end (driver_iterations MISSED_KEY tempty (Some 7) (-1) false) =
-       [e1; e2; e3; e4; IDone (Some Qc1c4) 32665 false]).
+       [e1; e2; e3; e4; IDone (Some Rd7a7) 32665 false]).
 Proof. vm_compute. repeat split; try reflexivity. do 4 eexists. reflexivity. Qed.
 
-(* the conclusion of C10_mate_in_two_tableless_partial fails with the table on: bounded material, reachable
-   (a FEN), no mate in one, a key that the filter keeps, a fresh table, never stopped, limit 7 - and the
-   announced move is not a key *)
-Example table_on_refutes_mate_in_two :
-  GB MISSED_KEY /\ NoMateInOne MISSED_KEY /\ FilterKeepsKey MISSED_KEY /\ Limit5OK (Some 7) /\
-  ~ (exists m', key2 MISSED_KEY m' /\ d_move (driver MISSED_KEY tempty (Some 7) (-1) false) = Some m').
+Example table_on_plays_key :
+  exists m', key2 MISSED_KEY m' /\ d_move (driver MISSED_KEY tempty (Some 7) (-1) false) = Some m'.
 Proof.
-  destruct missed_key_run as (H1 & _). destruct missed_key_mechanism as (Hk & Hn & Hf & _ & Hnk & _).
-  split; [exact missed_key_good|]. split; [apply no_mate_in_one_b_ok; exact Hn|].
-  split; [exists Rd7a7; split; [exact Hk | exact Hf]|]. split; [cbn [Limit5OK]; lia|].
-  intros (m' & [_ Hk'] & E). rewrite H1 in E. injection E as E'. rewrite <- E' in Hk'. rewrite Hnk in Hk'. discriminate Hk'.
+  destruct missed_key_repaired as (H1 & _). destruct missed_key_mechanism as (Hk & _).
+  exists Rd7a7. split; [exact Hk | exact H1].
 Qed.
 
 Print Assumptions quiescence_FH.
 Print Assumptions depth1_FH.
 Print Assumptions missed_key_mechanism.
-Print Assumptions missed_key_run.
-Print Assumptions table_on_refutes_mate_in_two.
+Print Assumptions missed_key_repaired.
+Print Assumptions table_on_plays_key.
